@@ -188,7 +188,11 @@ def judgeStep (s : JState) (ev : Ev) : JState :=
   | .opDestructed _ => s
   | .setScriptDestructed _ => s
   | .note _ => s
-  | .crash line => s.flag (.crash line)
+  | .crash line =>
+    -- the crash line that ends a run right after a sanitizer report is the same incident: reported once
+    match s.bad with
+    | .memoryError _ :: _ => s
+    | _ => s.flag (.crash line)
   | .sanitizer line => s.flag (.memoryError line)
   | .malformed line => s.flag (.malformed line)
   | .unexpected line => s.flag (.unexpectedLine line)
